@@ -47,7 +47,9 @@ SuspectTimeout(m, o) ==
                    "forgetting-not-scheduled-after-remove_down_after")
             \cup V(\E i \in DOMAIN o.hpost.upd : o.hpost.upd[i].m = Mem(t.id, t.inc, "D"),
                    "Down-update-not-queued-for-gossip")
-            \cup V(cfg.notifydown =>
+            \* (a TurnUndead that cannot be encoded - max_packet_size below the header - is reported to the caller as
+            \*  Err(Encode); everything else the timeout entails must have happened all the same)
+            \cup V((cfg.notifydown /\ o.res = "Ok") =>
                       Cardinality({i \in DOMAIN S : S[i].dst = t.id /\ S[i].d.h.msg.k = "TurnUndead"}) = 1,
                    "TurnUndead-not-sent-although-configured")
             \cup V(~cfg.notifydown => S = <<>>, "datagram-sent-although-notify_down_members-is-off")
